@@ -48,6 +48,8 @@ THEOREMS = [
     "TornadoModel.C08.findCrlf_none_iff",
     "TornadoModel.C08.parseHex_iff",
     "TornadoModel.C08.hexDigitVal_iff",
+    "TornadoModel.C08.headHere_iff",
+    "TornadoModel.C08.findHeadEnd_iff",
 ]
 TRUSTED = [
     "zlib/gzip are opaque: the streaming decompressor's output for the whole encoded body is an input of the model "
@@ -72,7 +74,8 @@ ASSUMPTIONS = [
     "the model's network chunks: more than chunk_size bytes of output from one network chunk followed, in the same "
     "network chunk, by the end of the member and trailing bytes makes the decompress loop raise 'no progress' "
     "(status bad) instead of dropping the trailing bytes (status trail); the Spec rejects both",
-    "HTTP leniencies of the code are part of the strict reader: bare LF, obs-fold, CRs before the LF of the status line; "
+    "HTTP leniencies of the code are part of the strict reader: bare LF, obs-fold, CRs before the LF of the status line, "
+    "CR / LF bytes in front of the status line are skipped; "
     "a list of identical Content-Length members `n, n` is read as n (RFC 9110 8.6 allows it) and shown collapsed; "
     "HEAD / 304 responses are not checked for framing headers at all",
 ]
@@ -88,11 +91,12 @@ EXHAUSTIVE = {"quick": False, "thorough": False}
 CLAUSE_CAVEATS = [
     'the framing decision (Content-Length / list of equal Content-Lengths / Transfer-Encoding / both / 204 / neither) of the '
     'oracle Spec.strictReadAll is Spec.framing, stated without the model (readBody_eq_strict, strict_accepts_sound tie '
-    '_read_body to it); what the strict reader still SHARES with the model: findHeadEnd (end of the header block), '
-    'parseHead (status line: statusLine_iff; header lines: the C06 model), gzipRewrite, findCrlf / parseHex inside '
-    'Spec.chunks (both characterised: findCrlf_iff = position of the first CRLF, parseHex_iff = non-empty hex digits, '
-    'base-16 value), and the 1xx / HEAD / 304 rules are written identically on both sides -- on findHeadEnd, the header '
-    'line grammar and gzipRewrite the oracle cannot disagree with the model',
+    '_read_body to it); what the strict reader still SHARES with the model: findHeadEnd (characterised: findHeadEnd_iff = '
+    'end of the leftmost match of one of the four terminators CRLFCRLF / CRLFLF / LFCRLF / LFLF), findCrlf / parseHex inside '
+    'Spec.chunks (characterised: findCrlf_iff = position of the first CRLF, parseHex_iff = non-empty hex digits, base-16 '
+    'value), parseHead (status line: statusLine_iff; header lines: the C06 model, no C08 theorem), gzipRewrite (no '
+    'characterising theorem), and the 1xx / HEAD / 304 rules are written identically on both sides -- on the header line '
+    'grammar and gzipRewrite the oracle cannot disagree with the model',
     'agreement holds outside two recorded known findings: gz-trail (data behind the first gzip member dropped) and '
     'cl-list-space (NEL / NBSP accepted between the members of a Content-Length list); both are side conditions of the '
     '_partial theorems and refuted in full (gzip_trailing_refuted, cl_list_space_refuted)',
